@@ -373,7 +373,7 @@ Proof.
   - split; [|discriminate]. intros [e H]. unfold rejects in R.
     destruct rcpts; [discriminate|]. destruct (packer_of c); try discriminate.
     destruct (pu_alg (kt_of c) (enc_of c)); [discriminate|].
-    rewrite !orb_false_iff in R. destruct R as [[_ R] _]. discriminate.
+    rewrite !orb_false_iff in R. destruct R as [_ [[_ R] _]]. discriminate.
 Qed.
 
 (* no party obtains anything but the packed payload, and it is never a panic / non-termination *)
